@@ -182,13 +182,16 @@ theorem step_facts (env : Env) (strict : Bool) (fault : Faults) {t g : Path} {ne
       rw [step_fault_raise _ _ _ _ _ _ _ _ _ _ hfa (by simp [swallows])]
       exact StepFacts.ofRaise hp _ _ _ _
     | none =>
+      by_cases hlen : env.nameMax < t.length
+      · rw [step_err_raise (e := ENAMETOOLONG) _ _ _ _ _ _ _ _ _ _ hfa (by simp [sys, hlen]) (by simp [swallows])]
+        exact StepFacts.ofRaise hp _ _ _ _
       cases hft : fs t with
       | none =>
-        rw [step_ok _ _ _ _ _ _ _ _ _ _ hfa (by simp [sys, hft]; exact ⟨rfl, rfl⟩)]
+        rw [step_ok _ _ _ _ _ _ _ _ _ _ hfa (by simp [sys, hlen, hft]; exact ⟨rfl, rfl⟩)]
         refine StepFacts.ofTmp hgt hp (fun q hq => by simp [hq]) ?_ rfl (by simp [body])
         exact Or.inr (Or.inr (Or.inl ⟨cs, ⟨[], env.dflt, env.dgid⟩, rfl, FS.set_same _ _ _, by simpa using hn⟩))
       | some f0 =>
-        rw [step_ok _ _ _ _ _ _ _ _ _ _ hfa (by simp [sys, hft]; exact ⟨rfl, rfl⟩)]
+        rw [step_ok _ _ _ _ _ _ _ _ _ _ hfa (by simp [sys, hlen, hft]; exact ⟨rfl, rfl⟩)]
         refine StepFacts.ofTmp hgt hp (fun q hq => by simp [hq]) ?_ rfl (by simp [body])
         exact Or.inr (Or.inr (Or.inl ⟨cs, { f0 with content := [] }, rfl, FS.set_same _ _ _, by simpa using hn⟩))
   · -- writing
@@ -384,13 +387,16 @@ theorem MInv.step (env : Env) (strict : Bool) (fault : Faults) {t g : Path} {new
       rw [step_fault_raise _ _ _ _ _ _ _ _ _ _ hfa (by simp [swallows])]
       exact hm.ofRaise (by simp) _ _
     | none =>
+      by_cases hlen : env.nameMax < t.length
+      · rw [step_err_raise (e := ENAMETOOLONG) _ _ _ _ _ _ _ _ _ _ hfa (by simp [sys, hlen]) (by simp [swallows])]
+        exact hm.ofRaise (by simp) _ _
       cases hft : fs t with
       | none =>
-        rw [step_ok _ _ _ _ _ _ _ _ _ _ hfa (by simp [sys, hft]; exact ⟨rfl, rfl⟩)]
+        rw [step_ok _ _ _ _ _ _ _ _ _ _ hfa (by simp [sys, hlen, hft]; exact ⟨rfl, rfl⟩)]
         exact hm.ofEarly (by simp [body, tail4]) (by simp [body, tail4]) (by simp [hgt])
           (by simp [body, tail4]) _ _ (by simp)
       | some f0 =>
-        rw [step_ok _ _ _ _ _ _ _ _ _ _ hfa (by simp [sys, hft]; exact ⟨rfl, rfl⟩)]
+        rw [step_ok _ _ _ _ _ _ _ _ _ _ hfa (by simp [sys, hlen, hft]; exact ⟨rfl, rfl⟩)]
         exact hm.ofEarly (by simp [body, tail4]) (by simp [body, tail4]) (by simp [hgt])
           (by simp [body, tail4]) _ _ (by simp)
   · -- write / close
@@ -566,7 +572,7 @@ theorem LInv.ofOk {t g : Path} {ops : List (Op α)} {fs fs' : FS α} {op : Op α
     · rw [hx]
 
 theorem LInv.step (env : Env) (strict : Bool) {t g : Path} {new : List α} {ops : List (Op α)}
-    (htg : t ≠ g) {fs : FS α} {p : Proc α} (h : CInv t g new fs p) (hl : LInv t g ops fs p) :
+    (htg : t ≠ g) (hfit : ¬ env.nameMax < t.length) {fs : FS α} {p : Proc α} (h : CInv t g new fs p) (hl : LInv t g ops fs p) :
     LInv t g ops (p.step env strict noFaults fs).1 (p.step env strict noFaults fs).2 := by
   have hgt : g ≠ t := fun e => htg e.symm
   have hfa : ∀ i, noFaults i = none := fun _ => rfl
@@ -577,10 +583,10 @@ theorem LInv.step (env : Env) (strict : Bool) {t g : Path} {new : List α} {ops 
     unfold opsAt at hl ⊢
     cases hft : fs t with
     | none =>
-      rw [step_ok _ _ _ _ _ _ _ _ _ _ (hfa idx) (by simp [sys, hft]; exact ⟨rfl, rfl⟩)]
+      rw [step_ok _ _ _ _ _ _ _ _ _ _ (hfa idx) (by simp [sys, hfit, hft]; exact ⟨rfl, rfl⟩)]
       exact hl.ofOk (by simp [hgt]) (by simp [body, tail4])
     | some f0 =>
-      rw [step_ok _ _ _ _ _ _ _ _ _ _ (hfa idx) (by simp [sys, hft]; exact ⟨rfl, rfl⟩)]
+      rw [step_ok _ _ _ _ _ _ _ _ _ _ (hfa idx) (by simp [sys, hfit, hft]; exact ⟨rfl, rfl⟩)]
       exact hl.ofOk (by simp [hgt]) (by simp [body, tail4])
   · simp only at h; subst h
     cases cs with
@@ -642,7 +648,7 @@ theorem step_log_len (env : Env) (strict : Bool) (fault : Faults) (fs : FS α) (
 
 /-- fault-free prefix of a run over an existing target -/
 theorem LInv.runN (env : Env) (strict : Bool) {t g : Path} {new : List α} {ops : List (Op α)} (htg : t ≠ g)
-    (k : Nat) : ∀ {fs : FS α} {p : Proc α}, CInv t g new fs p → LInv t g ops fs p →
+    (hfit : ¬ env.nameMax < t.length) (k : Nat) : ∀ {fs : FS α} {p : Proc α}, CInv t g new fs p → LInv t g ops fs p →
       p.log.length + k ≤ ops.length →
       LInv t g ops (runN env strict noFaults k fs p).1 (runN env strict noFaults k fs p).2 ∧
       (runN env strict noFaults k fs p).2.log.length = p.log.length + k := by
@@ -656,7 +662,7 @@ theorem LInv.runN (env : Env) (strict : Bool) {t g : Path} {new : List α} {ops 
       simp [h0] at this
       omega
     have hc' := (step_facts env strict noFaults htg fs p hc).inv
-    have hl' := hl.step env strict htg hc
+    have hl' := hl.step env strict htg hfit hc
     have hlen := step_log_len env strict noFaults fs p hne
     obtain ⟨h1, h2⟩ := ih hc' hl' (by omega)
     exact ⟨h1, by simp only [Pfb.C08.runN]; omega⟩
